@@ -207,7 +207,7 @@ func init() {
 			*b = append(*b, piece{s: s.(string)})
 			return tuple{len(s.(string)), iface{}}
 		},
-		"errors.Is":   func(fr *frame, a []value) value { return fr.i.errorsIs(a[0].(iface), a[1].(iface)) },
+		"errors.Is": func(fr *frame, a []value) value { return fr.i.errorsIs(a[0].(iface), a[1].(iface)) },
 		// reflection is not modelled: TypeOf yields the nil reflect.Type. The analyzers only store it in
 		// analysis.Analyzer.ResultType (read by drivers, which are not executed); any use of the value is a
 		// nil-interface method call, i.e. a panic that the native replay will not confirm (fails closed).
